@@ -97,6 +97,21 @@ def run(t, budget=1.0):
                             pc.fail("spurious-assertion:%s" % c2.replace(" ", "-") if outcome(resp) == "ASSERT" else "silent-out-of-bounds:%s:exact-fit" % c2.replace(" ", "-"), entry,
                                     {"cmd": line, "config": cfg, "n": full, "full": full, "expect": "OK", "actual": resp[:300]},
                                     "[%s] %s on a well-formed, exactly fitting image of message %s: %s" % (cfg, c2, L.name, resp[:200]))
+            if family == "read":
+                # more exact-fit images (cheap): cursor/visit traversals of extended images must not trip the handler
+                for _ in range(8):
+                    v2 = data.draw(values.level_values(L, max_entries=3, inflate=True))
+                    img2, _sz = M.encode_message(L, v2, background=0x99)
+                    for c2 in ("dump cur", "dump vis", "sizes"):
+                        cfg = cfgs[data.draw(st.integers(0, len(cfgs) - 1))]
+                        line = read_line(c2, mi, img2.hex() or "-")
+                        resp = pc.call(entry, cfg, line)
+                        res.count()
+                        res.nontriv(common.text_hash(entry.dir, c2, img2, "full"))
+                        if outcome(resp) != "OK":
+                            pc.fail("spurious-assertion:%s" % c2.replace(" ", "-") if outcome(resp) == "ASSERT" else "silent-out-of-bounds:%s:exact-fit" % c2.replace(" ", "-"), entry,
+                                    {"cmd": line, "config": cfg, "n": len(img2), "full": len(img2), "expect": "OK", "actual": resp[:300]},
+                                    "[%s] %s on a well-formed, exactly fitting image of message %s: %s" % (cfg, c2, L.name, resp[:200]))
             for n in ns:
                 cfg = cfgs[n % len(cfgs)]
                 hx = img[:n].hex() or "-"
